@@ -240,3 +240,28 @@ package analysis
 //@   loop 6 invariant len(delayVars) == len(delayNegAtom) && len(premises) + len(delayNegAtom) == rangeindex + 1 + len(toRemove) - (rangeindex#3 + 1)
 //@   loop 6 invariant forall u int :: rangeindex#3 < u && u < len(toRemove) ==> 0 <= toRemove[u] && toRemove[u] < len(delayNegAtom)
 //@   loop 6 invariant forall u int, w int :: 0 <= u && u < w && w < len(toRemove) ==> toRemove[u] > toRemove[w]
+
+// ---- C10: every function application of a premise is arity-checked before the bounds checker walks it -------------
+// arityOK(e): every function application inside e has an argument count its function accepts (abstract; the
+// recursive check itself is ASSUMED to establish it). The bounds checker indexes arguments relying on it.
+//@ spec func arityOK(e ast.BaseTerm) bool
+//@ func (a *Analyzer) checkExprArity(arg)
+//@   trusted
+//@   requires a != nil
+//@   modifies nothing
+//@   ensures err == nil ==> arityOK(arg)
+//@ spec func margs(t ast.Term) []ast.BaseTerm = lit(t) is ast.Atom ? (lit(t) as ast.Atom).Args : (lit(t) as ast.NegAtom).Atom.Args
+//@ spec func premiseArityOK(t ast.Term) bool =
+//@      (mentions(t) ==> (forall j int :: 0 <= j && j < len(margs(t)) ==> arityOK(margs(t)[j]))) &&
+//@      (t is ast.Eq ==> arityOK((t as ast.Eq).Left) && arityOK((t as ast.Eq).Right)) &&
+//@      (t is ast.Ineq ==> arityOK((t as ast.Ineq).Left) && arityOK((t as ast.Ineq).Right))
+//@ func (a *Analyzer) checkFunctions(clause)
+//@   requires a != nil
+//@   modifies nothing
+//@   opt nosafety
+//@   ensures err == nil ==> (forall k int :: 0 <= k && k < len(clause.Premises) ==> premiseArityOK(clause.Premises[k]))
+//@   loop 1 invariant forall k int :: 0 <= k && k < rangeindex + 1 ==> premiseArityOK(clause.Premises[k])
+//@   loop 2 invariant (forall k int :: 0 <= k && k < rangeindex ==> premiseArityOK(clause.Premises[k])) && (forall j int :: 0 <= j && j < rangeindex#2 + 1 ==> arityOK(x.Args[j]))
+//@   loop 3 invariant (forall k int :: 0 <= k && k < rangeindex ==> premiseArityOK(clause.Premises[k])) && (forall j int :: 0 <= j && j < rangeindex#3 + 1 ==> arityOK(x#2.Atom.Args[j]))
+//@   loop 4 invariant (forall k int :: 0 <= k && k < rangeindex ==> premiseArityOK(clause.Premises[k])) && (forall j int :: 0 <= j && j < rangeindex#4 + 1 ==> arityOK(args[j]))
+//@   loop 4 invariant mentions(clause.Premises[rangeindex]) ==> args == margs(clause.Premises[rangeindex])
